@@ -4,6 +4,7 @@ mod exhaust;
 mod fuzz;
 mod proj;
 mod replay;
+mod runnerchk;
 mod scenario;
 
 use serde_json::json;
@@ -28,6 +29,7 @@ fn main() {
         "irstep-check" => exhaust::irstep_check(&args[2]),
         "fuzz" => fuzz::fuzz(args[2].parse().unwrap(), args[3].parse().unwrap()),
         "muldiv-term" => exhaust::muldiv_term(),
+        "runner-check" => runnerchk::check(&args[2]),
         "scenario" => scenario::run_script(&args[2], &args[3]),
         "bus-sig-check" => bussig::check(&args[2]),
         "board-check" => boardsig::check(&args[2]),
